@@ -27,6 +27,7 @@ RULE = (
     "interleavings, for <= 2 tasks also with two events landing in one loop iteration; a body that requests its own cancellation and returns / a task carrying an earlier handled request; plus spawn outside any scope (also in a second event loop); non-trivial = at least one spawned task was "
     "still running when the body ended, or a task failed"
 )
+RULE += ' Rounds 10-11: DEEP nesting of 4-6 (8) async scopes with tasks spawned at the innermost / every level; tasks spawned from callables that are not coroutine functions; MANY spawned tasks (4-9 (12), deviation bound 2 (3)).'
 ASSUMPTIONS = [
     "spawned tasks do not swallow cancellation",
     "asyncio FIFO callback order",
